@@ -10,26 +10,34 @@
 (* every atom to a unique string, the secret atoms to the two halves of the   *)
 (* real secret returned by Create).                                           *)
 (*                                                                            *)
-(* Time: `now` counts Wait steps; every Wait is longer than the documented    *)
-(* 5 minute cache window, everything else happens "at once".                  *)
-EXTENDS Naturals, Sequences, FiniteSets, TLC
+(* Time: `now` is measured in half windows. A Wait step is longer than the    *)
+(* documented 5 minute cache window (2 units); a Half step is longer than     *)
+(* half of it and shorter than the whole (1 unit: one Half after an event is  *)
+(* still inside the window, two are outside); everything else happens "at     *)
+(* once". Configurations use either Wait steps or Half steps (Halves).        *)
+EXTENDS Integers, Sequences, FiniteSets, TLC
 
 CONSTANTS IdSet,      \* ids that may be created: a set of atom sequences
           UnknownId,  \* an id that is never created
           MaxCreate,  \* bound on Create calls (= number of distinct secrets)
-          MaxWait,    \* bound on Wait steps
+          MaxWait,    \* bound on elapsed time, in whole windows
+          Halves,     \* TRUE: time advances in Half steps, FALSE: in Wait steps
           Origins,    \* subset of {"lo4","lo6","ext4","ext6"}
           Paths,      \* subset of {"api","backup","restore","tokens"}
-          MaxTried    \* bound on the ghost set `tried`
+          MaxTried,   \* bound on the ghost set `tried`
+          MaxUsed     \* bound on the ghost set `used`
 
 VARIABLES toks,    \* Seq([id, live, del]) one entry per Create call, in order
-          now,     \* number of Wait steps so far
+          now,     \* elapsed time in half windows
           authed,  \* set of [u, p, at]: pairs presented while they were a live token's pair
           tried,   \* ghost: refused pairs presented earlier (makes the exploration repeat / vary
                    \* requests after a refused one: the implementation has a cache the rule ignores)
+          used,    \* ghost: times at which a deleted token's pair was presented inside its window (the
+                   \* implementation's cache entry has a time stamp the rule ignores: using the pair must not
+                   \* extend the window, so the exploration continues after such a request)
           last     \* the last call with what the specification allows as its outcome
 
-vars == <<toks, now, authed, tried, last>>
+vars == <<toks, now, authed, tried, used, last>>
 
 Local(o) == o \in {"lo4", "lo6"}
 LocalOnly(path) == path \in {"backup", "restore", "tokens"}
@@ -56,7 +64,8 @@ IsPair(c, k) == c.has /\ c.u = toks[k].id /\ c.p = Secret(k)
 LiveTok(c) == \E k \in K : toks[k].live /\ IsPair(c, k)
 (* the documented cache window: the pair of a token deleted less than the     *)
 (* window ago that was presented successfully while the token was live        *)
-Grace(c) == \E k \in K : /\ ~toks[k].live /\ IsPair(c, k) /\ toks[k].del = now
+InWindow(t) == now - t < 2
+Grace(c) == \E k \in K : /\ ~toks[k].live /\ IsPair(c, k) /\ InWindow(toks[k].del)
                          /\ \E a \in authed : a.u = c.u /\ a.p = c.p
 
 (* What the property allows for a request. *)
@@ -78,9 +87,9 @@ Class(c) ==
   ELSE IF \E k \in K : c.u = toks[k].id THEN "wrongsecret"
   ELSE "unknownid"
 (* the concatenation u \o p equals that of a pair authenticated within the current window *)
-CatAuthed(c) == c.has /\ \E a \in authed : a.at = now /\ Cat(a) = Cat(c)
+CatAuthed(c) == c.has /\ \E a \in authed : InWindow(a.at) /\ Cat(a) = Cat(c)
 
-Init == /\ toks = <<>> /\ now = 0 /\ authed = {} /\ tried = {}
+Init == /\ toks = <<>> /\ now = 0 /\ authed = {} /\ tried = {} /\ used = {}
         /\ last = [op |-> "init"]
 
 Create(i) ==
@@ -88,38 +97,45 @@ Create(i) ==
   /\ \A k \in K : toks[k].live => toks[k].id # i
   /\ toks' = Append(toks, [id |-> i, live |-> TRUE, del |-> 0])
   /\ last' = [op |-> "create", id |-> i, k |-> Len(toks) + 1]
-  /\ UNCHANGED <<now, authed, tried>>
+  /\ UNCHANGED <<now, authed, tried, used>>
 
 Delete(k) ==
   /\ toks[k].live
   /\ toks' = [toks EXCEPT ![k].live = FALSE, ![k].del = now]
   /\ last' = [op |-> "delete", id |-> toks[k].id, k |-> k]
-  /\ UNCHANGED <<now, authed, tried>>
+  /\ UNCHANGED <<now, authed, tried, used>>
 
 Wait ==
-  /\ now < MaxWait
-  /\ now' = now + 1
+  /\ ~Halves /\ now + 2 <= 2 * MaxWait
+  /\ now' = now + 2
   /\ last' = [op |-> "wait"]
-  /\ UNCHANGED <<toks, authed, tried>>
+  /\ UNCHANGED <<toks, authed, tried, used>>
+
+Half ==
+  /\ Halves /\ now + 1 <= 2 * MaxWait
+  /\ now' = now + 1
+  /\ last' = [op |-> "half"]
+  /\ UNCHANGED <<toks, authed, tried, used>>
 
 Request(o, path, c) ==
   /\ authed' = IF LiveTok(c) THEN authed \cup {[u |-> c.u, p |-> c.p, at |-> now]} ELSE authed
   /\ tried' = IF c.has /\ ~LiveTok(c) /\ Cardinality(tried) < MaxTried
                 THEN tried \cup {[u |-> c.u, p |-> c.p]} ELSE tried
+  /\ used' = IF ~Local(o) /\ c.has /\ ~LiveTok(c) /\ Grace(c) /\ Cardinality(used) < MaxUsed THEN used \cup {now} ELSE used
   /\ last' = [op |-> "request", origin |-> o, path |-> path, has |-> c.has, u |-> c.u, p |-> c.p,
               allow |-> Allowed(o, path, c), cls |-> Class(c), catauthed |-> CatAuthed(c)]
   /\ UNCHANGED <<toks, now>>
 
 Next == \/ \E i \in IdSet : Create(i)
         \/ \E k \in K : Delete(k)
-        \/ Wait
+        \/ Wait \/ Half
         \/ \E o \in Origins, path \in Paths, c \in Creds : Request(o, path, c)
 
 Spec == Init /\ [][Next]_vars
 
 -----------------------------------------------------------------------------
 (* Design properties of the rule itself *)
-TypeOK == /\ now \in 0..MaxWait
+TypeOK == /\ now \in 0..(2 * MaxWait)
           /\ \A k \in K : toks[k].id \in IdSet
           /\ \A j, k \in K : (j # k /\ toks[j].live /\ toks[k].live) => toks[j].id # toks[k].id
 
@@ -132,16 +148,17 @@ OnlyIssued ==
      /\ ~LocalOnly(last.path)
      /\ last.has
      /\ \E k \in K : /\ last.u = toks[k].id /\ last.p = Secret(k)
-                     /\ (toks[k].live \/ toks[k].del = now)
+                     /\ (toks[k].live \/ InWindow(toks[k].del))
 (* a re-splitting of an issued token is never authorised *)
 NoResplit == (last.op = "request" /\ ~Local(last.origin) /\ last.cls \in {"resplit", "wrongsecret", "unknownid", "empty", "nocred", "stale"})
                 => last.allow = "refuse"
 (* secrets are fresh: no two tokens share a concatenation unless they are the same token *)
 FreshSecrets == \A j, k \in K : j # k => Cat(Pair(j)) # Cat(Pair(k))
 
-View == <<toks, now, authed, tried>>
+View == <<toks, now, authed, tried, used>>
 
 (* constant values for the configurations (tuples cannot be written in a cfg file) *)
+Ids1 == {<<"a", "b">>}
 Ids2 == {<<"a", "b">>, <<"a">>}
 Ids3 == {<<"a", "b">>, <<"a">>, <<"b">>}
 IdZ == <<"z">>
